@@ -8,7 +8,10 @@ from vlib.lhaenc import crc16
 ID = "C18"
 LEAN_MODULES = ["LhasaV.Props.C18"]
 VH_FEATURES = ["tool"]
-THEOREMS = {"safe_output_printable": "full: every byte string", "safe_keeps_printable": "full", "(every print site of the tool uses the sanitiser)": "correspondence only"}
+THEOREMS = {"safe_output_printable": "full: every byte string", "safe_keeps_printable": "full",
+            "listing_printable": "full: every byte of every l/lv/v/vv listing, any quiet level, for ARBITRARY headers",
+            "print_banners_printable": "full: lha p = banner segments (printable/newline) + member contents",
+            "(t/x progress and error messages go through the sanitiser)": "correspondence only"}
 TRUSTED = ["model LhasaV.Model.Safe of safe_output (src/safe.c), tied by the `safe` op; which call sites go through it is observed on the "
            "real tool's stdout/stderr, mode by mode"]
 ASSUMPTIONS = ["file contents dumped by `p` are outside the property: generated members contain printable data"]
@@ -174,7 +177,8 @@ def signature(case, c_out, why):
     return "raw-bytes:%s:%s" % (mode if col == "other" else "v", col)
 
 
-LEVEL_TEXT = ("Lean theorem: safe_output maps every byte string to printable ASCII; the tool-level statement (every archive-derived field goes "
-              "through it in every mode) is evaluated on the real tool's stdout/stderr for hostile bytes in every header string field.")
-LEVEL_NOTE = "Partial: the theorem covers the sanitiser; that every print site uses it is observed per mode on generated archives (the list-output model C19 extends it)."
-TECHNIQUE = "Lean 4 proof (sanitiser range) + output-byte-set correspondence on the real tool"
+LEVEL_TEXT = ("Lean theorems: safe_output maps every byte string to printable ASCII; every byte of every listing (l lv v vv, all quiet levels) "
+              "is printable or newline for arbitrary headers; lha p output = printable banners + member contents. The models are tied to the real "
+              "tool byte for byte (C19, C06) and the byte-set is evaluated on the real stdout/stderr of every mode for hostile header bytes.")
+LEVEL_NOTE = "Partial: the messages of the test/extract modes (t, x, xn) are not modelled in Lean; their byte-set is observed on the real tool for hostile bytes in every field."
+TECHNIQUE = "Lean 4 proof (sanitiser range; printable-output theorem over the listing and print models) + output-byte-set correspondence on the real tool"
